@@ -469,6 +469,10 @@ class Fn:
             return a['_i'] < b['_i']
         return a['_b'] in self.dominators().get(b['_b'], ())
 
+    def dominates_block(self, a, b):
+        """block a dominates block b (every path from the entry to b passes a)."""
+        return a == b or a in self.dominators().get(b, ())
+
     def reachable_from(self, bid):
         if bid not in self._reach:
             seen = set()
